@@ -48,22 +48,25 @@ def make_dp(idx, vals, outlier_prob=Fraction(0), size=1, name=None):
 
 
 class DataSet:
-    """n data points with exact values; .real is the list of phyclone DataPoints."""
+    """n data points with exact values; .real is the list of phyclone DataPoints.
+    `ops` (optional) gives a per-data-point outlier prior, otherwise `outlier_prob` applies to all."""
 
-    def __init__(self, vals, outlier_prob=Fraction(0), sizes=None):
+    def __init__(self, vals, outlier_prob=Fraction(0), sizes=None, ops=None):
         self.vals = vals  # list over data points of S x G Fractions
         self.n = len(vals)
         self.S = len(vals[0])
         self.G = len(vals[0][0])
         self.outlier_prob = Fraction(outlier_prob)
         self.sizes = sizes or [1] * self.n
-        self.real = [make_dp(i, v, self.outlier_prob, self.sizes[i]) for i, v in enumerate(vals)]
+        self.ops = [Fraction(x) for x in ops] if ops is not None else [self.outlier_prob] * self.n
+        self.real = [make_dp(i, v, self.ops[i], self.sizes[i]) for i, v in enumerate(vals)]
 
     def to_json(self):
         return {
             "G": self.G,
             "S": self.S,
             "op": fr(self.outlier_prob),
+            "ops": [fr(x) for x in self.ops],
             "sizes": self.sizes,
             "vals": [[[fr(x) for x in row] for row in v] for v in self.vals],
         }
@@ -71,7 +74,7 @@ class DataSet:
     @staticmethod
     def from_json(j):
         vals = [[[Fraction(x) for x in row] for row in v] for v in j["vals"]]
-        return DataSet(vals, Fraction(j["op"]), j.get("sizes"))
+        return DataSet(vals, Fraction(j["op"]), j.get("sizes"), j.get("ops"))
 
 
 def gen_dataset(rnd, n, S=1, G=4, bits=3, outlier_prob=Fraction(0)):
